@@ -300,7 +300,19 @@ def run_c20(t, tier, res):
     if got is None:
         res.violate("C20", "edited_grammar_missing", {"args": args})
         return
-    if got != want:
+    def parsed(b):
+        out = []
+        for raw in b.decode("ascii", "replace").replace("\r\n", "\n").split("\n"):
+            if raw.strip():
+                f = raw.split("\t")
+                try:
+                    out.append((f[0], float(f[1])))
+                except (IndexError, ValueError):
+                    out.append((raw, None))
+        return out
+    if got != want and parsed(got) == parsed(want):
+        res.stats["grammar_bytes_differ_but_same_meaning"] += 1
+    elif got != want:
         gl, wl = got.decode("ascii", "replace").split("\n"), want.decode("ascii").split("\n")
         res.violate("C20", "grammar_not_original_minus_failing", {
             "args": args, "removed_but_should_stay": [l for l in wl if l and l not in gl][:4],
